@@ -53,4 +53,5 @@ MCCuts(st) == {NoCut}
 
 Treats == {<< Op("RM") >>, << Op("NR") >>, << Op("NR"), Rd(1) >>, << Op("NR"), Op("RF") >>, << Op("NR"), Op("RA") >>}
 MCProgs(st) == {p \o << Op("RM") >> : p \in Concats(Treats, NumData(st))}
+               \cup {<< Swd(-1) >> \o p \o << Op("RM") >> : p \in Concats({<< Op("RM") >>, << Op("NR"), Op("RA") >>}, NumData(st))}
 =============================================================================
